@@ -87,8 +87,8 @@ CHECKS = {
         'fault enumeration with instrumented inspectors + differential '
         'against shadow inspectors; multi-fault plans with Hypothesis',
         'fault_enumeration',
-        'Every single fault (10 inspectors x every chunk index x 6 exception '
-        'classes) x expected_format in {None, ten names} x read/iteration on '
+        'Every single fault (10 inspectors x every chunk index x 9 exception '
+        'kinds incl. message-less ones) x expected_format in {None, ten names} x read/iteration on '
         'eight fixed sources is enumerated; multiple simultaneous faults, '
         'allowed_formats subsets and generated sources are sampled. The '
         'reader\'s bytes, the calls reaching every inspector, which read '
